@@ -5,7 +5,14 @@ import (
 )
 
 func mergeDocs(doc, patch *Document) error {
-	merged, err := merge(doc.Data, patch.Data)
+	// Each target gets its own copy of the patch: merge embeds and mutates its
+	// source, and one patch may be applied to several documents.
+	src, err := deepClone(patch.Data)
+	if err != nil {
+		return err
+	}
+
+	merged, err := merge(doc.Data, src)
 	if err != nil {
 		return err
 	}
